@@ -112,10 +112,10 @@ pub fn compare_reader_fits(rep: &mut Report, orc: &mut Oracle, bytes: &[u8], ori
     return false;
   }
   if got != model {
-    let shown: String = h.chars().take(400).collect();
+    let shown: String = h.clone();
     rep.corr_break(
       "from_fits_ivoa differs from the byte-level model of the reader",
-      &format!("FITSR {}... ({} bytes) # origin={} mutation={}", shown, bytes.len(), origin, what),
+      &format!("FITSR {} ({} bytes) # origin={} mutation={}", shown, bytes.len(), origin, what),
       &got.chars().take(400).collect::<String>(),
       &model.chars().take(400).collect::<String>(),
       "src/deser/fits from_fits_ivoa == Model/FitsCodec.v fits_read (C07_fits_file_roundtrip)",
@@ -282,7 +282,7 @@ pub fn compare_reader_mom(rep: &mut Report, orc: &mut Oracle, bytes: &[u8], orig
   });
   let key = model.split_whitespace().take(2).collect::<Vec<_>>().join(" ");
   rep.count(&format!("mom-reader:{}:{}", origin, if model.starts_with("OK") { "OK".to_string() } else { key }));
-  let shown = format!("MOMR {}... ({} bytes) # origin={} mutation={}", h.chars().take(300).collect::<String>(), bytes.len(), origin, what);
+  let shown = format!("MOMR {} ({} bytes) # origin={} mutation={}", h.clone(), bytes.len(), origin, what);
   let got = match got {
     Err(p) => {
       rep.violation_c(&format!("from_fits_multiordermap does not return a value: {}", p), &format!("MOMR {} ({} bytes) # origin={} mutation={}", h, bytes.len(), origin, what), &p, &model.chars().take(200).collect::<String>(), "C12 (decoders are total)", "");
@@ -340,7 +340,27 @@ pub fn compare_reader_sky(rep: &mut Report, orc: &mut Oracle, bytes: &[u8], orig
   if bytes.len() >= 2 && bytes[0] == 0x1f && bytes[1] == 0x8b {
     return true;
   }
-  if !bytes.iter().take(5760.min(bytes.len())).all(|b| b.is_ascii()) {
+  // extent of the headers: up to the end of the block holding the END card of the extension (the whole file when
+  // there is none)
+  let mut hdr_end = bytes.len();
+  let mut pos = 0;
+  let mut n_end = 0;
+  while pos + 80 <= bytes.len() {
+    if &bytes[pos..pos + 4] == b"END " {
+      n_end += 1;
+      let block_end = ((pos / 2880) + 1) * 2880;
+      if n_end == 2 {
+        // END of the extension header (the first one closes the primary header, which may span several blocks)
+        hdr_end = block_end;
+        break;
+      }
+      pos = block_end;
+      continue;
+    }
+    pos += 80;
+  }
+  if !bytes.iter().take(hdr_end.min(bytes.len())).all(|b| b.is_ascii()) {
+    rep.count("sky-reader:non-ascii-header(outside the model)");
     return true; // a non-ASCII header byte: the string keywords go through from_utf8 in the implementation
   }
   rep.evaluations += 1;
@@ -356,7 +376,7 @@ pub fn compare_reader_sky(rep: &mut Report, orc: &mut Oracle, bytes: &[u8], orig
       })
   });
   rep.count(&format!("sky-reader:{}:{}", origin, model.split_whitespace().take(2).collect::<Vec<_>>().join(" ")));
-  let shown = format!("SKYR {}... ({} bytes) # origin={} mutation={}", h.chars().take(300).collect::<String>(), bytes.len(), origin, what);
+  let shown = format!("SKYR {} ({} bytes) # origin={} mutation={}", h.clone(), bytes.len(), origin, what);
   match got {
     Err(p) => {
       rep.violation_c(&format!("from_fits_skymap does not return a value: {}", p), &format!("SKYR {} ({} bytes) # origin={} mutation={}", h, bytes.len(), origin, what), &p, &model, "C12 (decoders are total)", "");
